@@ -24,15 +24,18 @@ def run(check_env, prop):
 def main():
     every = "--all" in sys.argv
     rows = []
+    only = [a for a in sys.argv[1:] if not a.startswith("--")]
     for mdir in sorted(glob.glob(os.path.join(ROOT, "seeded", "*"))):
         meta = json.load(open(os.path.join(mdir, "meta.json")))
+        if only and meta["id"] not in only:
+            continue
         target = meta["breaks_property"]
         scratch = tempfile.mkdtemp(prefix="verif-matrix-", dir="/tmp")
         try:
             subprocess.run(["git", "-C", "/repo", "worktree", "add", "-q", "--detach", scratch + "/wt", "HEAD"], check=True)
             subprocess.run(["git", "-C", scratch + "/wt", "apply", os.path.join(mdir, "patch.diff")], check=True)
             env = dict(os.environ, UBERJOB_SRC=scratch + "/wt/src")
-            props = ALL if every else [target]
+            props = ALL if every else [target] + [x for x in meta.get("also_run", []) if x != target]
             res = {}
             for p in props:
                 res[p] = run(env, p)
@@ -41,6 +44,17 @@ def main():
         finally:
             subprocess.run(["git", "-C", "/repo", "worktree", "remove", "--force", scratch + "/wt"], check=False)
             shutil.rmtree(scratch, ignore_errors=True)
+    # results are kept (and merged) in SENSITIVITY.json so that a partial re-run only replaces its own rows
+    jpath = os.path.join(ROOT, "SENSITIVITY.json")
+    store = json.load(open(jpath)) if os.path.exists(jpath) else {}
+    for meta, res in rows:
+        store[meta["id"]] = {p: list(r) for p, r in res.items()}
+    json.dump(store, open(jpath, "w"), indent=0, sort_keys=True)
+    rows = []
+    for mdir in sorted(glob.glob(os.path.join(ROOT, "seeded", "*"))):
+        meta = json.load(open(os.path.join(mdir, "meta.json")))
+        if meta["id"] in store:
+            rows.append((meta, store[meta["id"]]))
     with open(os.path.join(ROOT, "SENSITIVITY.md"), "w") as f:
         f.write("# Sensitivity: seeded changes vs. checks\n\n")
         f.write("Rows with a NOT / HARNESS-ERROR note are changes the check of their own property does not catch (the note says who does, if anyone). "
@@ -56,7 +70,7 @@ def main():
             t = res.get(meta["breaks_property"])
             f.write(f"| {meta['id']} | {meta['breaks_property']} | {meta['change']} | {' '.join(caught) or '-'} | "
                     f"{' '.join(missed) or '-'}{(' (harness error: ' + ' '.join(err) + ')') if err else ''} | "
-                    f"{(meta.get('note') or (t[2] if t else '')).replace('|', '/')} ({t[1]:.0f}s) |\n")
+                    f"{(meta.get('not_caught_note') or (t[2] if t else '')).replace('|', '/')} ({t[1]:.0f}s) |\n")
     print("wrote SENSITIVITY.md")
 
 
